@@ -108,6 +108,16 @@ func processUserMacro(exp Exporter, m *uMacroDefInfo) {
 		}
 		return
 	}
+	// Do not allow runaway expansion either (a macro calling itself twice
+	// would otherwise expand an exponential number of times)
+	if ctx.uMacroCall.count >= maxMacroExpansions {
+		if ctx.Process && !ctx.uMacroCall.exhausted {
+			ctx.Error("recursive macro: too many expansions (infinite recursive calls?)")
+		}
+		ctx.uMacroCall.exhausted = true
+		return
+	}
+	ctx.uMacroCall.count++
 
 	// curBlock: user defined macro
 	if !ctx.Process {
@@ -147,6 +157,8 @@ func processUserMacro(exp Exporter, m *uMacroDefInfo) {
 		ctx.loc = oloc
 		if ctx.uMacroCall.depth == 0 {
 			ctx.uMacroCall.loc = nil
+			ctx.uMacroCall.count = 0
+			ctx.uMacroCall.exhausted = false
 		}
 	}()
 
